@@ -113,8 +113,8 @@ def run(ctx):
                 for method in methods:
                     try:
                         fgg, info = semgen.build(shn, name, torch.float64, **kw)
-                        with warnings.catch_warnings():
-                            warnings.simplefilter('ignore')
+                        with warnings.catch_warnings(record=True) as wlist:
+                            warnings.simplefilter('always')
                             if name in ('real', 'log'):
                                 for el in info['TL']:
                                     fgg.factors[el.name].weights.physical.requires_grad_(True)
@@ -135,10 +135,19 @@ def run(ctx):
                         if perms is not None:
                             val = start_perm(shape, perms, val)
                         out = (val, grads)
+                        if any('converge' in str(w_.message) or 'kmax' in str(w_.message) or 'iteration' in str(w_.message) for w_ in wlist):
+                            # the iteration hit kmax: the grammar has no finite sum-product within reach (divergent or too slow); what is
+                            # returned is a partial sum and its gradient comes from an ill-conditioned system: outside the comparison
+                            # (false alarm of sweep 6, seed 42: a divergent grammar, gradients inf vs 7e13)
+                            out = ('not-converged',)
+                            ctx.count('not-converged')
                     except Exception as e:  # noqa
                         out = ('raise', type(e).__name__)
                     key = (name, method)
                     ctx.evaluations += 1
+                    if out == ('not-converged',) or results.get(key) == ('not-converged',):
+                        results.setdefault(key, out)
+                        continue
                     if key not in results:
                         results[key] = out
                     elif not same(results[key], out, exact=(name != 'log' and not (recursive and name == 'real')),
